@@ -416,7 +416,7 @@ def gen_boundary_handle_cases():
                     if mx is not None:
                         v['max'] = mx
                     vars_.append(v)
-        cases.append({'lens': lens, 'vars': vars_, 'ops': [], 'coords': coords_for(lens, vars_[:1])})
+        cases.append({'lens': lens, 'vars': vars_, 'ops': [], 'coords': coords_for(lens, vars_)})
     return cases
 
 
